@@ -18,6 +18,7 @@
   "outside the model" markers `.other` / `.nameError`, which `shapeOk` excludes
   (`no_benign`, by step-preservation), and the `KeyError` of `parse` itself.
 -/
+import PestModel.Hyps
 import PestModel.Props.C03
 import PestModel.Props.C01
 import PestModel.Lemmas.Term
@@ -27,36 +28,8 @@ namespace C07
 
 /-! ### 1. "free of references to undefined rules" -/
 
-mutual
-/-- every `Identifier` in `e` — also inside the bodies of embedded rule objects — names an entry
-    of the rule table -/
-def refsDefined (g : Grammar) : Expr → Bool
-  | .ident n _ => (g.lookup n).isSome
-  | .rule _ _ _ b => refsDefined g b
-  | .seq es => refsDefinedL g es
-  | .choice es => refsDefinedL g es
-  | .opt e => refsDefined g e
-  | .rep e => refsDefined g e
-  | .rep1 e => refsDefined g e
-  | .repExact e _ => refsDefined g e
-  | .repMin e _ => refsDefined g e
-  | .repMax e _ => refsDefined g e
-  | .repMinMax e _ _ => refsDefined g e
-  | .andP e => refsDefined g e
-  | .notP e => refsDefined g e
-  | .group e _ => refsDefined g e
-  | .push e => refsDefined g e
-  | _ => true
-def refsDefinedL (g : Grammar) : List Expr → Bool
-  | [] => true
-  | e :: es => refsDefined g e && refsDefinedL g es
-end
-
 /-- the grammar has no reference to an undefined rule -/
 def Closed (g : Grammar) : Prop := ∀ r ∈ g.rules, refsDefined g r.body = true
-
-/-- executable form of `Closed` -/
-def closedB (g : Grammar) : Bool := g.rules.all fun r => refsDefined g r.body
 
 theorem closed_of_closedB {g : Grammar} (h : closedB g = true) : Closed g := by
   intro r hr
@@ -421,53 +394,11 @@ end L1
 
 /-! ### 4. Generated code raises nothing -/
 
-/-- the rule `n` has a generated function `parse_<n>` (grammar rules and EOI have one) -/
-def callable (g : Grammar) (n : String) : Bool :=
-  match g.lookup n with
-  | some r => !(r.kind == .builtin && r.name != "EOI")
-  | none => false
-
-mutual
-/-- tree shapes the generator handles (all the front end and the optimizer build): an embedded
-    rule object is a silent, non-scoped built-in other than EOI — exactly the negation of the
-    test in `LG.step`'s `.rule` case —, and every rule referenced by name has a generated
-    function.  Subsumes `refsDefined`. -/
-def shapeOk (g : Grammar) : Expr → Bool
-  | .ident n _ => callable g n
-  | .rule name mod _ b =>
-    !(name == "EOI" || !hasBit mod SILENT || L1.ruleScoped name mod) && shapeOk g b
-  | .seq es => shapeOkL g es
-  | .choice es => shapeOkL g es
-  | .opt e => shapeOk g e
-  | .rep e => shapeOk g e
-  | .rep1 e => shapeOk g e
-  | .repExact e _ => shapeOk g e
-  | .repMin e _ => shapeOk g e
-  | .repMax e _ => shapeOk g e
-  | .repMinMax e _ _ => shapeOk g e
-  | .andP e => shapeOk g e
-  | .notP e => shapeOk g e
-  | .group e _ => shapeOk g e
-  | .push e => shapeOk g e
-  | _ => true
-def shapeOkL (g : Grammar) : List Expr → Bool
-  | [] => true
-  | e :: es => shapeOk g e && shapeOkL g es
-end
-
-/-- the names the generated `parse_trivia` calls -/
-def triviaNames : List String := ["SKIP", "WHITESPACE", "COMMENT"]
-
 /-- the hypothesis on the rule table for generated code: every body has a shape the generator
     handles, and the trivia rules `parse_trivia` calls by name (if defined) have a function -/
 structure GenShape (g : Grammar) : Prop where
   bodies : ∀ r ∈ g.rules, shapeOk g r.body = true
   trivia : ∀ n ∈ triviaNames, (g.lookup n).isSome = true → callable g n = true
-
-/-- executable form of `GenShape` -/
-def genShapeB (g : Grammar) : Bool :=
-  (g.rules.all fun r => shapeOk g r.body) &&
-  (triviaNames.all fun n => !(g.lookup n).isSome || callable g n)
 
 theorem genShape_of_genShapeB {g : Grammar} (h : genShapeB g = true) : GenShape g := by
   simp only [genShapeB, Bool.and_eq_true, List.all_eq_true, Bool.or_eq_true,
@@ -1092,18 +1023,10 @@ end Combined
 
 /-! ### 7. Non-vacuity: concrete grammars meet the hypotheses; the hypotheses are needed -/
 
-/-- executable form of `SkipTotal` -/
-def skipTotalB (g : Grammar) : Bool :=
-  match g.fusedSkip with
-  | some r => totalBody r.body
-  | none => true
-
 theorem skipTotal_of_skipTotalB {g : Grammar} (h : skipTotalB g = true) : SkipTotal g := by
   intro r hr
   simp only [skipTotalB, hr] at h
   exact h
-
-def onlyEOIB (g : Grammar) : Bool := g.rules.all fun r => !(r.kind == .builtin && r.name != "EOI")
 
 theorem onlyEOI_of_onlyEOIB {g : Grammar} (h : onlyEOIB g = true) : OnlyEOI g := by
   intro r hr
@@ -1380,7 +1303,7 @@ def repNullable : Grammar :=
 def nullableWs : Grammar :=
   { rules := [⟨"e", 0, .seq [.str [97], .str [98]], .grammar⟩, ⟨"WHITESPACE", SILENT, .rep (.str [32]), .grammar⟩] }
 def lrThroughTrivia : Grammar :=
-  { rules := [⟨"e", 0, .seq [.opt (.str [97]), .str [98]], .grammar⟩,
+  { rules := [⟨"e", NONATOMIC, .seq [.opt (.str [97]), .str [98]], .grammar⟩,
               ⟨"WHITESPACE", SILENT, .choice [.str [32], .seq [.ident "e" none, .str [33]]], .grammar⟩] }
 
 example : WF.wellFormed lrDirect = false := by decide
@@ -1390,6 +1313,21 @@ example : WF.wellFormed nullableWs = false := by decide
 example : WF.wellFormed lrThroughTrivia = false := by decide
 example : WF.wellFormed badRef = false := by decide
 
+/-- … and rightly so: the specification and the interpreter model run out of fuel on them
+    (shown for fuel 40; with `e` not marked `!` the last grammar would terminate, because trivia
+    rules are atomic and implicit trivia is off inside them — the check does not track atomicity
+    and would reject it all the same: it is conservative there) -/
+def isOof0 : R0 → Bool
+  | .oof => true
+  | _ => false
+def isOof1 : R1 → Bool
+  | .oof => true
+  | _ => false
+example : isOof1 (L1.parse lrDirect #[49] 40 "e" 0) = true := by decide +kernel
+example : isOof1 (L1.parse repNullable #[98] 40 "e" 0) = true := by decide +kernel
+example : isOof1 (L1.parse nullableWs #[97, 98] 40 "e" 0) = true := by decide +kernel
+example : isOof0 (L0.parse lrThroughTrivia #[99, 98] 40 "e" 0) = true := by decide +kernel
+example : isOof1 (L1.parse lrThroughTrivia #[99, 98] 40 "e" 0) = true := by decide +kernel
 
 end C07
 end Pest
